@@ -90,7 +90,8 @@ def _c06_init_abs(v, rec):
     """Inferred state list = closure plus exactly the states reachable only by expanding an
     *initial* absorbing state."""
     f = v.get("facts", {})
-    return v["clause"] == "inferred-state_list!=closure" and bool(f.get("extra_only_from_initial_absorbing"))
+    return v["clause"] in ("inferred-state_list!=closure", "max_states:not-prefix-closed") \
+        and bool(f.get("extra_only_from_initial_absorbing"))
 
 
 @mechanism("C16-discounted-near-singular-rank-test")
